@@ -24,19 +24,19 @@ const (
 )
 
 type lval struct {
-	kind   lvKind
-	key    string
-	obj    *types.Var
-	ref    *T
-	st     types.Type // struct type for field kinds
-	f      *types.Var
-	parent *lval
-	idx    *T
-	typ    types.Type
-	m      Val
-	mt     *types.Map
-	k      Val
-	str    string
+	kind    lvKind
+	key     string
+	obj     *types.Var
+	ref     *T
+	st      types.Type // struct type for field kinds
+	f       *types.Var
+	parent  *lval
+	idx     *T
+	typ     types.Type
+	m       Val
+	mt      *types.Map
+	k       Val
+	str     string
 	srField bool
 }
 
@@ -287,6 +287,7 @@ func (ex *Exec) execStmt(s ast.Stmt) {
 		return
 	}
 	ex.curPos = s.Pos()
+	ex.stmtChecks(s)
 	switch s := s.(type) {
 	case *ast.BlockStmt:
 		ex.execBlock(s.List)
@@ -481,6 +482,11 @@ func (ex *Exec) execAssign(s *ast.AssignStmt) {
 				}
 			}
 			vals = append(vals, v)
+		}
+	}
+	if len(s.Lhs) == len(s.Rhs) {
+		for i, l := range s.Lhs {
+			ex.recordView(l, s.Rhs[i])
 		}
 	}
 	for i, l := range s.Lhs {
@@ -907,9 +913,9 @@ type loopParts struct {
 	bodyPre  func()    // runs at the start of each iteration (range variable binding)
 	body     []ast.Stmt
 	post     func()
-	autoInv  func() *T  // built-in invariant (range index bounds)
-	autoVar  func() *T  // default variant
-	scopePos token.Pos  // position used to resolve identifiers in invariants (inside the loop's own scope)
+	autoInv  func() *T // built-in invariant (range index bounds)
+	autoVar  func() *T // default variant
+	scopePos token.Pos // position used to resolve identifiers in invariants (inside the loop's own scope)
 	extraMod []string
 	bindIdx  func(sc *specCtx)
 }
@@ -923,6 +929,8 @@ func (ex *Exec) execLoop(lp *loopParts) {
 		// the hint documents which loop the clauses were written for; a changed condition is not contract drift
 		ex.warnings[fmt.Sprintf("%s %s: text hint %q differs from the loop condition %q", ex.name, lname, ls.lc.Hint, lp.text)] = true
 	}
+	var pathCheck func(n int)
+	pathsChecked := false
 	runIter := func(lf *loopFrame) {
 		c := lp.cond()
 		base := ex.st
@@ -943,6 +951,32 @@ func (ex *Exec) execLoop(lp *loopParts) {
 		ex.dryStates = append(ex.dryStates, exitSt)
 		all := append([]*State{bodySt}, lf.continues...)
 		lf.continues = nil
+		// the invariants are checked at the end of every path through the body separately (end of body, each continue)
+		if pathCheck != nil && ex.quiet == 0 {
+			live := 0
+			for _, s := range all {
+				if !s.dead {
+					live++
+				}
+			}
+			if live > 1 {
+				n := 0
+				for _, s := range all {
+					if s.dead {
+						continue
+					}
+					n++
+					ex.st = s.clone()
+					if lp.post != nil {
+						lp.post()
+					}
+					if !ex.st.dead {
+						pathCheck(n)
+					}
+				}
+				pathsChecked = true
+			}
+		}
 		ex.st = ex.merge(all)
 		if !ex.st.dead && lp.post != nil {
 			lp.post()
@@ -966,6 +1000,7 @@ func (ex *Exec) execLoop(lp *loopParts) {
 	if lp.scopePos == token.NoPos {
 		lp.scopePos = lp.pos
 	}
+	invSuffix := ""
 	invs := func(kind string) {
 		sc := ex.specHere(lp.scopePos)
 		sc.entry = entry
@@ -977,7 +1012,7 @@ func (ex *Exec) execLoop(lp *loopParts) {
 			if kind == "assume" {
 				ex.assume(g)
 			} else {
-				ex.assert("T", lname+"-index-"+kind, g)
+				ex.assert("T", lname+"-index-"+kind+invSuffix, g)
 			}
 		}
 		if ls.lc == nil {
@@ -993,7 +1028,7 @@ func (ex *Exec) execLoop(lp *loopParts) {
 				ex.assume(g)
 			} else {
 				ex.curPos = lp.pos
-				ex.assert("I", lname+"-inv-"+kind+"["+lab+"]", g)
+				ex.assert("I", lname+"-inv-"+kind+"["+lab+"]"+invSuffix, g)
 			}
 		}
 	}
@@ -1049,12 +1084,26 @@ func (ex *Exec) execLoop(lp *loopParts) {
 	lf := &loopFrame{label: label}
 	ex.loops = append(ex.loops, lf)
 	ex.dryStates = nil
+	pathCheck = func(n int) {
+		ex.curPos = lp.pos
+		invSuffix = fmt.Sprintf("@path%d", n)
+		invs("preserved")
+		invSuffix = ""
+	}
 	runIter(lf)
+	pathCheck = nil
 	ex.dryStates = nil
 	ex.loops = ex.loops[:len(ex.loops)-1]
 	if !ex.st.dead {
 		ex.curPos = lp.pos
-		invs("preserved")
+		if pathsChecked {
+			// established on every path above
+			ex.quiet++
+			invs("assume")
+			ex.quiet--
+		} else {
+			invs("preserved")
+		}
 		if v0 != nil {
 			v1 := variant()
 			ex.curPos = lp.pos
@@ -1203,7 +1252,12 @@ func (ex *Exec) execRange(s *ast.RangeStmt) {
 		sc.stateVars[fmt.Sprintf("ri%d", n)] = stateVar{idxKey, types.Typ[types.Int]}
 		sc.vars[fmt.Sprintf("rx%d", n)] = x
 	}
+	if ex.rangeOps == nil {
+		ex.rangeOps = map[string]Val{}
+	}
+	ex.rangeOps[idxKey] = x
 	ex.execLoop(lp)
+	delete(ex.rangeOps, idxKey)
 	delete(ex.st.env, idxKey)
 }
 
